@@ -694,7 +694,9 @@ def _guarded_store(ctx, f, st, target, walkers, field):
     V = st.value
     valtxt = unparse(V)
 
-    def edge_ok(lab):
+    neg_targets = []
+
+    def edge_ok(lab, target=None):
         if not lab or lab[0] not in ("T", "F"):
             return False
         e = lab[1]
@@ -704,7 +706,10 @@ def _guarded_store(ctx, f, st, target, walkers, field):
         if ("null", valtxt) in derive(e, pol) or ("falsy", valtxt) in derive(e, pol):
             return True  # no candidate on this path
         # `not walker(..)` is decomposed by the CFG, so the walker call itself is the test
-        return (not pol) and _walker_negative(ctx, f, e, valtxt, recvtxt, walkers, field)
+        ok = (not pol) and _walker_negative(ctx, f, e, valtxt, recvtxt, walkers, field)
+        if ok and target is not None:
+            neg_targets.append(target)
+        return ok
 
     starts = []
     if isinstance(V, ast.Name):
@@ -744,7 +749,7 @@ def _guarded_store(ctx, f, st, target, walkers, field):
         stack = [(t, lab) for t, lab in cfg.nodes[s0].succs if not (lab and lab[0] == "exc")]
         while stack:
             t, lab = stack.pop()
-            if edge_ok(lab):
+            if edge_ok(lab, t):
                 continue
             if t == snode.id:
                 return False
@@ -755,7 +760,67 @@ def _guarded_store(ctx, f, st, target, walkers, field):
                 if lab2 and lab2[0] == "exc":
                     continue
                 stack.append((t2, lab2))
+    # the walk's answer must still hold at the store: nothing between the test and the store
+    # may install links of the same field on other objects (a recursive resolve of the candidate
+    # lets every member of a cycle pass its own test while all links are still unset)
+    writers = _field_writers(ctx, field)
+    seen = set()
+    stack = list(neg_targets)
+    while stack:
+        t = stack.pop()
+        if t in seen or t == snode.id:
+            continue
+        seen.add(t)
+        n = cfg.nodes[t]
+        if n.ast is not None and n.kind in ("stmt", "test"):
+            for c in calls_in(n.ast):
+                k_, tg = ctx.r.resolve_call(f, c)
+                if k_ in ("external", "unknown"):
+                    continue
+                hit = sorted(q for q in tg if q in writers)
+                if hit:
+                    _STALE[(f.qual, id(st))] = (c, hit[0])
+                    return False
+        for t2, lab2 in n.succs:
+            if lab2 and lab2[0] == "exc":
+                continue
+            stack.append(t2)
     return True
+
+
+_STALE = {}
+_WRITERS = {}
+
+
+def _field_writers(ctx, field):
+    """functions that (transitively) store a non-None value into `.field`"""
+    key_ = (id(ctx.m), field)
+    if key_ in _WRITERS:
+        return _WRITERS[key_]
+    direct = set()
+    for g in ctx.m.funcs.values():
+        for n in ctx.m.walk_own(g.node):
+            if isinstance(n, ast.Assign) and any(isinstance(t, ast.Attribute) and t.attr == field for t in n.targets) and not (isinstance(n.value, ast.Constant) and n.value.value is None):
+                direct.add(g.qual)
+    out = set(direct)
+    changed = True
+    while changed:
+        changed = False
+        for g in ctx.m.funcs.values():
+            if g.qual in out or g.rel.endswith("debug.py"):
+                continue
+            for c in calls_in(g.node):
+                if ctx.m.enclosing_func(c) is not g:
+                    continue
+                k_, tg = ctx.r.resolve_call(g, c)
+                if k_ in ("external", "unknown", "by_name"):
+                    continue
+                if tg & out:
+                    out.add(g.qual)
+                    changed = True
+                    break
+    _WRITERS[key_] = out
+    return out
 
 
 def chain_walkers(ctx, field):
